@@ -49,6 +49,13 @@ pub fn judge(w: &Worker, scen: &Scenario, ex: &Exec) -> Judgement {
     simple_judge(v, ex, exit0(ex))
 }
 
+/// like `judge`, but the source whose extent query was answered "unsupported" may legitimately be materialised
+pub fn judge_later_sources(w: &Worker, scen: &Scenario, ex: &Exec) -> Judgement {
+    let mut j = judge(w, scen, ex);
+    j.violations.retain(|m| !m.starts_with("dst/a "));
+    j
+}
+
 fn bsizes() -> Vec<(&'static str, Vec<&'static str>)> {
     vec![("256K", vec!["--block-size", "256KB"]), ("1M", vec!["--block-size", "1MB"]), ("1.5M", vec!["--block-size", "1572864"]), ("4M", vec!["--block-size", "4MB"]), ("MAX", vec!["--no-progress"])]
 }
@@ -130,6 +137,26 @@ pub fn run(ctx: &Ctx) -> Report {
     }
     let st = scen_batch(ctx, sc, &[Policy::P0], j);
     rep.part("hole-size scaling (5 x 4 KiB of data, holes of 1 / 8 / 64 MiB)", st, serde_json::json!({}));
+    // several sparse sources in one run where extent mapping is unsupported for the first only (as if it lived on
+    // another file system): the later ones must still be copied sparsely
+    {
+        let mut jobs = vec![];
+        for d in drivers() {
+            let tree = vec![
+                Entry::new("a", Kind::File(Content::Layout { unit: MIB, units: vec![true, false, false, true], tail: 0, seed: 41 })),
+                Entry::new("b", Kind::File(Content::Layout { unit: MIB, units: vec![false, true, false, false], tail: 0, seed: 42 })),
+                Entry::new("c", Kind::File(many_extents(5, MIB))),
+                Entry::dir("dst"),
+            ];
+            let s = std::sync::Arc::new(Scenario::new(&format!("first-source-without-fiemap-{}", d), tree, &["--driver", d, "-w", "2", "--block-size", "1MB", "a", "b", "c", "dst"]));
+            let mut sp = RunSpec::base(Policy::P0);
+            sp.faults.push(crate::sup::Fault { call: "ioctl:FIEMAP".into(), thread: None, nth: Some(1), path_contains: None, action: crate::sup::Action::Errno(libc::EOPNOTSUPP) });
+            jobs.push((s, sp, 0usize));
+        }
+        let jl: Judge = &judge_later_sources;
+        let st = crate::explore::explore(&ctx.pool, jobs, jl);
+        rep.part("three sparse sources, extent mapping unsupported for the first only", st, serde_json::json!({}));
+    }
     rep.assumptions = vec!["ext4 sandbox: SEEK_HOLE and FIEMAP are real; st_blocks includes delayed allocation".into()];
     rep
 }
